@@ -80,91 +80,70 @@ theorem iterAll_entryValue_short (e : Endian) (enc : Encoding) (len : Nat) :
       | panic w => rw [hpar] at hp; simp at hp
       | diverge => rw [hpar] at hp; simp at hp
 
-/-- the environment answers with gimli errors only -/
-def EnvNoFuel (env : Env) : Prop :=
-  (∀ o, env.unitRef o ≠ .error .fuel) ∧ (∀ o, env.infoRef o ≠ .error .fuel) ∧
-    (∀ f i, env.addrIndex = some f → f i ≠ .error .fuel)
+theorem convertNested_unfold (env : Env) (e : Endian) (enc : Encoding) (left : Nat) (bs : Bytes) :
+    convertNested env e enc left bs =
+      match Op.iterAll e enc bs.length (bs.length + 1) bs with
+      | (_, some er) => .error (.read er)
+      | (ops, none) => convertList env enc (inputOffsets ops bs.length) (subAt env e enc left) ops := by
+  cases left <;> rfl
 
-theorem bind_no_fuel {α β} (x : CR α) (f : α → CR β) (hx : x ≠ .error .fuel) (hf : ∀ a, f a ≠ .error .fuel) :
-    (x >>= f) ≠ .error .fuel := by
-  cases x with
-  | ok a => exact hf a
-  | error c => intro h; apply hx; simpa [bind, Except.bind] using h
+theorem convertOp_depth (env : Env) (enc : Encoding) (offsets : List Nat) (endOff : Nat)
+    (sub : Bytes → CR (List WOp.Operation)) (n : Nat)
+    (hsub : ∀ x ws, sub x = .ok ws → exprDepth ws + 1 ≤ n)
+    (r : Op.Operation) (w : WOp.Operation) (h : convertOp env enc offsets endOff sub r = .ok w) :
+    opDepth w ≤ n := by
+  cases r <;> simp only [convertOp] at h
+  case entryValue x =>
+    simp only [except_bind_ok, pure, Except.pure, Except.ok.injEq] at h
+    obtain ⟨ws, hws, rfl⟩ := h
+    simp only [opDepth]; exact hsub x ws hws
+  all_goals
+    first
+      | (simp only [pure, Except.pure, Except.ok.injEq] at h; subst h; simp [opDepth])
+      | (simp only [except_bind_ok, pure, Except.pure, Except.ok.injEq] at h; obtain ⟨_, _, rfl⟩ := h; simp [opDepth])
+      | (split at h <;>
+          first
+            | (simp only [pure, Except.pure, Except.ok.injEq] at h; subst h; simp [opDepth])
+            | (simp only [except_bind_ok, pure, Except.pure, Except.ok.injEq] at h; obtain ⟨_, _, rfl⟩ := h; simp [opDepth])
+            | (cases h)
+            | (split at h <;> first
+                | (simp only [pure, Except.pure, Except.ok.injEq] at h; subst h; simp [opDepth])
+                | (cases h))
+            | (simp only [except_bind_ok] at h; obtain ⟨_, _, h⟩ := h
+               split at h <;> first
+                | (simp only [pure, Except.pure, Except.ok.injEq] at h; subst h; simp [opDepth])
+                | (cases h)))
+      | (cases ‹Option Nat› <;> simp only [pure, Except.pure, Except.ok.injEq] at h <;> subst h <;> simp [opDepth])
+      | (cases ‹Op.DieRef› <;> simp only [except_bind_ok, pure, Except.pure, Except.ok.injEq] at h <;> obtain ⟨_, _, rfl⟩ := h <;> simp [opDepth])
 
-theorem branchIndex_no_fuel (offsets : List Nat) (endOff : Nat) (d : Int) :
-    branchIndex offsets endOff d ≠ .error .fuel := by
-  unfold branchIndex; simp only; split <;> simp
+theorem convertList_depth (env : Env) (enc : Encoding) (offsets : List Nat)
+    (sub : Bytes → CR (List WOp.Operation)) (n : Nat)
+    (hsub : ∀ x ws, sub x = .ok ws → exprDepth ws + 1 ≤ n) :
+    ∀ (ops : List (Op.Operation × Nat)) (ws : List WOp.Operation),
+      convertList env enc offsets sub ops = .ok ws → exprDepth ws ≤ n
+  | [], ws, h => by simp only [convertList, Except.ok.injEq] at h; subst h; simp [exprDepth]
+  | (op, en) :: rest, ws, h => by
+    simp only [convertList, except_bind_ok, pure, Except.pure, Except.ok.injEq] at h
+    obtain ⟨w, hw, ws', hws, rfl⟩ := h
+    simp only [exprDepth]
+    exact Nat.max_le.mpr ⟨convertOp_depth env enc offsets en sub n hsub op w hw,
+      convertList_depth env enc offsets sub n hsub rest ws' hws⟩
 
-theorem convertOp_no_fuel (env : Env) (henv : EnvNoFuel env) (enc : Encoding) (offsets : List Nat) (endOff : Nat)
-    (sub : Bytes → CR (List WOp.Operation)) (r : Op.Operation)
-    (hsub : ∀ x, r = .entryValue x → sub x ≠ .error .fuel) :
-    convertOp env enc offsets endOff sub r ≠ .error .fuel := by
-  obtain ⟨hu, hi, ha⟩ := henv
-  have pu : ∀ (w : WOp.Operation), (pure w : CR WOp.Operation) ≠ .error .fuel := by intro w h; cases h
-  cases r <;> simp only [convertOp] <;> try (exact pu _)
-  case deref bt s sp =>
-    split
-    · exact bind_no_fuel _ _ (hu _) (fun _ => pu _)
-    · split <;> exact pu _
-  case bra t => exact bind_no_fuel _ _ (branchIndex_no_fuel _ _ _) (fun _ => pu _)
-  case skip t => exact bind_no_fuel _ _ (branchIndex_no_fuel _ _ _) (fun _ => pu _)
-  case registerOffset rg o bt =>
-    split
-    · exact bind_no_fuel _ _ (hu _) (fun _ => pu _)
-    · exact pu _
-  case call d =>
-    cases d with
-    | unitRef o => exact bind_no_fuel _ _ (hu _) (fun _ => pu _)
-    | debugInfoRef o => exact bind_no_fuel _ _ (hi _) (fun _ => pu _)
-  case variableValue o => exact bind_no_fuel _ _ (hi _) (fun _ => pu _)
-  case implicitPointer v bo => exact bind_no_fuel _ _ (hi _) (fun _ => pu _)
-  case entryValue x => exact bind_no_fuel _ _ (hsub x rfl) (fun _ => pu _)
-  case parameterRef o => exact bind_no_fuel _ _ (hu _) (fun _ => pu _)
-  case typedLiteral bt v => exact bind_no_fuel _ _ (hu _) (fun _ => pu _)
-  case convert bt => split; exact pu _; exact bind_no_fuel _ _ (hu _) (fun _ => pu _)
-  case reinterpret bt => split; exact pu _; exact bind_no_fuel _ _ (hu _) (fun _ => pu _)
-  case address a => split; exact pu _; simp
-  case addressIndex i =>
-    split
-    · simp
-    · rename_i f hf
-      refine bind_no_fuel _ _ (ha f i hf) (fun v => ?_)
-      split; exact pu _; simp
-  case constantIndex i =>
-    split
-    · simp
-    · rename_i f hf
-      exact bind_no_fuel _ _ (ha f i hf) (fun _ => pu _)
-  case piece bits bo => cases bo <;> exact pu _
-
-theorem convertList_no_fuel (env : Env) (henv : EnvNoFuel env) (enc : Encoding) (offsets : List Nat)
-    (sub : Bytes → CR (List WOp.Operation)) :
-    ∀ (ops : List (Op.Operation × Nat)),
-      (∀ p ∈ ops, ∀ x, p.1 = .entryValue x → sub x ≠ .error .fuel) →
-      convertList env enc offsets sub ops ≠ .error .fuel
-  | [], _ => by simp [convertList]
-  | (op, en) :: rest, h => by
-    simp only [convertList]
-    refine bind_no_fuel _ _ (convertOp_no_fuel env henv enc offsets en sub op (fun x hx => h (op, en) (by simp) x hx)) (fun w => ?_)
-    refine bind_no_fuel _ _ (convertList_no_fuel env henv enc offsets sub rest (fun p hp => h p (by simp [hp]))) (fun ws => ?_)
-    intro h'; cases h'
-
-/-- **the fuel suffices**: with more fuel than bytes, `convertExpr` never runs out -/
-theorem convertExpr_no_fuel (env : Env) (henv : EnvNoFuel env) (e : Endian) (enc : Encoding) :
-    ∀ (fuel : Nat) (bs : Bytes), bs.length < fuel → convertExpr env e enc fuel bs ≠ .error .fuel
-  | 0, bs, h => by omega
-  | fuel + 1, bs, h => by
-    simp only [convertExpr]
-    cases hI : Op.iterAll e enc bs.length (bs.length + 1) bs with
-    | mk ops er =>
-      cases er with
-      | some x => simp
-      | none =>
-        simp only
-        apply convertList_no_fuel env henv
-        intro p hp x hx
-        have hlt := iterAll_entryValue_short e enc bs.length (bs.length + 1) bs p x (by rw [hI]; exact hp) hx
-        exact convertExpr_no_fuel env henv e enc fuel x (by omega)
+/-- a converted expression nests `entry_value` at most as deep as was still allowed -/
+theorem convertNested_depth (env : Env) (e : Endian) (enc : Encoding) :
+    ∀ (left : Nat) (bs : Bytes) (ws : List WOp.Operation),
+      convertNested env e enc left bs = .ok ws → exprDepth ws ≤ left
+  | 0, bs, ws, h => by
+    simp only [convertNested] at h
+    split at h
+    · cases h
+    · exact convertList_depth env enc _ refuseNested 0 (fun x ws h => by cases h) _ ws h
+  | left + 1, bs, ws, h => by
+    simp only [convertNested] at h
+    split at h
+    · cases h
+    · exact convertList_depth env enc _ _ (left + 1)
+        (fun x ws' h' => Nat.succ_le_succ (convertNested_depth env e enc left x ws' h')) _ ws h
 
 /-- the second pass converts the decoded operations one by one, in order -/
 theorem convertList_allPairs (env : Env) (enc : Encoding) (offsets : List Nat) (sub : Bytes → CR (List WOp.Operation)) :
